@@ -197,7 +197,7 @@ static unsigned long v_ctx_lookup(spif_charptr_t n)
     return i;
 }
 static unsigned long v_ctx_lookup(spif_charptr_t n)
-__CPROVER_requires(CTXTAB_INV && n != NULL && __CPROVER_r_ok(n, 1))
+__CPROVER_requires(CTXTAB_INV && VCSTR_FRESH(n, vg_n1))
 __CPROVER_requires(CTXNAME_AT(vg_k))
 __CPROVER_assigns(vg_cmp_last, vg_lk_at_k, vg_lk, vg_lk_hit)
 __CPROVER_ensures(__CPROVER_return_value <= (unsigned long) ctx_idx + 1 && vg_lk == __CPROVER_return_value)
@@ -220,7 +220,7 @@ FILE *spifconf_open_file(spif_charptr_t name)
 __CPROVER_requires(name == NULL || __CPROVER_r_ok(name, 1))
 __CPROVER_requires(libast_program_name != NULL && __CPROVER_r_ok(libast_program_name, 1))
 __CPROVER_requires(libast_program_version != NULL && __CPROVER_r_ok(libast_program_version, 1))
-__CPROVER_assigns(FGETS_GHOSTS, vg_open_streams, vg_k2)
+__CPROVER_assigns(FGETS_GHOSTS, vg_open_streams)
 __CPROVER_ensures(__CPROVER_return_value == NULL ? vg_open_streams == __CPROVER_old(vg_open_streams)
                   : (vg_open_streams == __CPROVER_old(vg_open_streams) + 1 && fstate_idx < 255 &&
                      __CPROVER_is_fresh(__CPROVER_return_value, sizeof(FILE))))
@@ -291,7 +291,7 @@ __CPROVER_assigns(fstate, fstate_idx, fstate_cnt, __CPROVER_object_whole(fstate)
 __CPROVER_assigns(vg_log, vg_nlog, vg_call_id, vg_call_h, vg_seq, vg_t_chomp, vg_t_expand, vg_line, vg_gw_len, vg_se_len, vg_cmp_last,
                   vg_lk, vg_lk_at_k, vg_lk_hit, vg_spawned, vg_saw_preproc, vg_saw_bq, vg_saw_exec, vg_open_streams, vg_pl_calls, vg_n3,
                   vg_umask_cur, vg_umask_calls, vg_mkstemp_umask, vg_mkstemp_tpl_ok, vg_mkstemp_calls, vg_mkstemp_fd,
-                  vg_fchmod_fd, vg_fchmod_mode, vg_fchmod_calls, FGETS_GHOSTS, vg_k2)
+                  vg_fchmod_fd, vg_fchmod_mode, vg_fchmod_calls, FGETS_GHOSTS)
 __CPROVER_frees(ctx_state, fstate)
 /* ---- E0: representation invariants are kept; one more parse_line call -------------------- */
 __CPROVER_ensures(CTXSTK_POST && FSTK_POST && fstate_idx >= 1)
